@@ -193,8 +193,17 @@ pub fn run(p: &Params) -> Report {
     if let Some(r) = &p.replay {
         // the record pool is a function of the shard seed only; replays re-run the scenario seed
         let seed: u64 = r["replay"]["scenario_seed"].as_str().unwrap().parse().unwrap();
-        scenario(seed, &pool, &mut rep);
+        if r["replay"]["kind"] == "service" {
+            scenario_service(seed, &pool, &mut rep);
+        } else {
+            scenario(seed, &pool, &mut rep);
+        }
         return rep;
+    }
+    let m = p.budget(800, 40_000);
+    for i in 0..m {
+        let seed = p.shard_seed(0x16F_000 + i);
+        crate::util::guarded(&mut rep, seed, |rep| scenario_service(seed, &pool, rep));
     }
     let n = p.budget(4_000, 400_000);
     for i in 0..n {
@@ -202,4 +211,74 @@ pub fn run(p: &Params) -> Report {
         crate::util::guarded(&mut rep, seed, |rep| scenario(seed, &pool, rep));
     }
     rep
+}
+
+/* ------------------------------------------------------------------------------------------ */
+/* R2 half: the same limits through a real Discv5 built with `ip_limit`                        */
+
+pub fn scenario_service(seed: u64, pool: &RecordPool, rep: &mut Report) {
+    use crate::rig::r2::{runtime, Mode, ServiceCfg, ServiceRig};
+    use discv5::verif::{ConnectionDirection, HandlerOut};
+    let rt = runtime(seed);
+    rt.block_on(async {
+        let mut rng = Rng::new(seed ^ 0x16F);
+        let rig = ServiceRig::start(&mut rng, ServiceCfg { mode: Mode::Ip4, local_enr_has_addr: true, tweak: Box::new(|b| {
+            b.ip_limit();
+        }) }).await;
+        let hot = rng.usize(NSUB);
+        let mut log: Vec<Value> = Vec::new();
+        let mut max_table = 0usize;
+        let mut max_bucket = 0usize;
+        let n = 60 + rng.usize(120);
+        for step in 0..n {
+            let k = rng.usize(pool.variants.len());
+            let s = match rng.below(10) {
+                0..=6 => hot,
+                _ => rng.usize(NSUB),
+            };
+            let enr = pool.variants[k][s].clone();
+            if rng.bool() {
+                let r = rig.discv5.add_enr(enr.clone());
+                log.push(json!({"step": step, "ev": "add_enr", "subnet": s, "result": format!("{r:?}")}));
+            } else {
+                let sock = std::net::SocketAddr::V4(enr.udp4_socket().unwrap());
+                let dir = if rng.bool() { ConnectionDirection::Incoming } else { ConnectionDirection::Outgoing };
+                rig.emit(HandlerOut::Established(enr, sock, dir)).await;
+                rig.settle().await;
+                log.push(json!({"step": step, "ev": "Established", "subnet": s}));
+            }
+            // monitor under the table lock, never mutating
+            let (t, b) = rig.discv5.with_kbuckets(|kb| {
+                let kb = kb.read();
+                let mut table: HashMap<[u8; 3], usize> = HashMap::new();
+                let mut worst_bucket = 0usize;
+                for bucket in kb.buckets_iter() {
+                    let mut per: HashMap<[u8; 3], usize> = HashMap::new();
+                    for n in bucket.iter() {
+                        if let Some(sn) = subnet_of(&n.value) {
+                            *per.entry(sn).or_default() += 1;
+                            *table.entry(sn).or_default() += 1;
+                        }
+                    }
+                    worst_bucket = worst_bucket.max(per.values().copied().max().unwrap_or(0));
+                }
+                (table.values().copied().max().unwrap_or(0), worst_bucket)
+            });
+            max_table = max_table.max(t);
+            max_bucket = max_bucket.max(b);
+            if t > 10 {
+                rep.violation("C16:table-subnet-limit", format!("a Discv5 built with ip_limit holds {t} nodes of one /24"), json!({"scenario_seed": seed.to_string(), "kind": "service", "log": log.iter().rev().take(12).rev().cloned().collect::<Vec<_>>()}));
+                break;
+            }
+            if b > 2 {
+                rep.violation("C16:bucket-subnet-limit", format!("a Discv5 built with ip_limit holds {b} nodes of one /24 in one bucket"), json!({"scenario_seed": seed.to_string(), "kind": "service", "log": log.iter().rev().take(12).rev().cloned().collect::<Vec<_>>()}));
+                break;
+            }
+        }
+        rep.evaluations += 1;
+        rep.count("service_scenarios");
+        rep.max("service_same_subnet_in_table", max_table as u64);
+        rep.max("service_same_subnet_in_bucket", max_bucket as u64);
+        rep.fingerprint(&("service", max_table, max_bucket, n / 20));
+    });
 }
